@@ -172,9 +172,18 @@ impl Property for C14 {
                 let pdus = [0usize, 1, 50, 4000, 4070, 4080, 4090, 4095, 4100, 5000, 9000, 20000];
                 for &bl in &bufs {
                     for &pl in &pdus {
+                      // primed: the preceding packet carried the same 3- / 6-byte label, so this one re-uses it
+                      for primed in [false, true] {
+                        if primed && lti >= 2 {
+                            continue;
+                        }
                         rep.eval();
                         let pdu = sentinel(pl, 7);
                         let mut enc = Encapsulator::new(dvb_gse_rust::crc::DefaultCrc {});
+                        if primed {
+                            let mut tmp = vec![0u8; 64];
+                            let _ = enc_guard(&mut enc, &[1, 2, 3], 0, EncapMetadata::new(0x0800, label), &mut tmp);
+                        }
                         if lti == 3 {
                             // an explicit re-use label needs a preceding packet
                             let mut tmp = vec![0u8; 64];
@@ -188,7 +197,13 @@ impl Property for C14 {
                         };
                         let meta = EncapMetadata::new(ptype, label);
                         let r = if call == 0 { enc_guard(&mut enc, &pdu, 9, meta, &mut buf) } else { enc_ext_guard(&mut enc, &pdu, 9, meta, &mut buf, exts) };
-                        let mut check = |what: &str, n: usize, want_kind: &[wire::Kind], buf: &[u8], rep: &mut Report| {
+                        let ext_extra = match call {
+                            0 => 0usize,
+                            1 => 4,
+                            _ => 0,
+                        };
+                        // payload carried by a start packet: the whole PDU (complete) or what the context counts (first)
+                        let mut check = |what: &str, n: usize, want_kind: &[wire::Kind], buf: &[u8], carried: Option<usize>, rep: &mut Report| {
                             if n < 2 || n > buf.len() {
                                 rep.violation("C14", format!("emit-view:{}:reported-length", what), || format!("{} reported {} bytes in a {}-byte buffer", what, n, buf.len()), || replay(key));
                                 return;
@@ -201,8 +216,16 @@ impl Property for C14 {
                                 rep.violation("C14", format!("emit-view:{}:header-word", what), || format!("{} (label type {}, buffer {}, pdu {}) reported {} bytes of kind {:?} but the header word {:#06x} reads kind {:?}, GSE length {}", what, lti, buf.len(), pl, n, want_kind, w, k, glen), || replay(key));
                             }
                             let wl = wire::lt_of_word(w);
-                            if matches!(k, wire::Kind::Complete | wire::Kind::First) && wl != lti {
+                            if matches!(k, wire::Kind::Complete | wire::Kind::First) && wl != lti && !(primed && wl == 3) {
                                 rep.violation("C14", format!("emit-view:{}:label-type", what), || format!("{}: label type bits {} for a label of type {}", what, wl, lti), || replay(key));
+                            }
+                            // the label type announced is the label type written: the GSE length accounts for exactly
+                            // the label bytes that the announced type implies
+                            if let (Some(c), true) = (carried, matches!(k, wire::Kind::Complete | wire::Kind::First)) {
+                                let fixed = if k == wire::Kind::First { 3 } else { 0 } + 2 + wire::lt_len(wl) + ext_extra;
+                                if glen != fixed + c {
+                                    rep.violation("C14", format!("emit-view:{}:label-type-vs-length", what), || format!("{} (label type {}, re-used: {}, buffer {}, pdu {}): header word {:#06x} announces label type {} and GSE length {}, but the fields of such a packet with {} payload bytes take {} bytes", what, lti, primed, buf.len(), pl, w, wl, glen, c, fixed + c), || replay(key));
+                                }
                             }
                         };
                         let what = ["encap", "encap_ext", "encap_ext-final"][call as usize];
@@ -211,11 +234,11 @@ impl Property for C14 {
                             Ok(Err(_)) => rep.count("emit.err"),
                             Ok(Ok(EncapStatus::CompletedPkt(n))) => {
                                 rep.count("emit.complete");
-                                check(what, n as usize, &[wire::Kind::Complete], &buf, rep);
+                                check(what, n as usize, &[wire::Kind::Complete], &buf, Some(pl), rep);
                             }
                             Ok(Ok(EncapStatus::FragmentedPkt(n, mut ctx))) => {
                                 rep.count("emit.first");
-                                check(what, n as usize, &[wire::Kind::First], &buf, rep);
+                                check(what, n as usize, &[wire::Kind::First], &buf, Some(ctx.len_pdu_frag() as usize), rep);
                                 // continuations into the same family of buffers
                                 for step in 0..12 {
                                     let bl2 = bufs[(step * 7 + bl) % bufs.len()];
@@ -228,18 +251,19 @@ impl Property for C14 {
                                         Ok(Err(_)) => {}
                                         Ok(Ok(EncapStatus::CompletedPkt(n))) => {
                                             rep.count("emit.end");
-                                            check("encap_frag", n as usize, &[wire::Kind::End], &b2, rep);
+                                            check("encap_frag", n as usize, &[wire::Kind::End], &b2, None, rep);
                                             break;
                                         }
                                         Ok(Ok(EncapStatus::FragmentedPkt(n, c2))) => {
                                             rep.count("emit.inter");
-                                            check("encap_frag", n as usize, &[wire::Kind::Inter], &b2, rep);
+                                            check("encap_frag", n as usize, &[wire::Kind::Inter], &b2, None, rep);
                                             ctx = c2;
                                         }
                                     }
                                 }
                             }
                         }
+                      }
                     }
                 }
             }
